@@ -3,7 +3,7 @@ import SaModel.Spec.DecodeAt
 /-
 C12 helpers, part 1: the bit lemma, windows of lists, the well-formedness predicate `sliceable`, the length of a slice.
 -/
-namespace SaModel.Props.C12
+namespace SaModel.Lemmas.C12
 open SaModel SaModel.Read SaModel.Spec
 
 /-- the key bit lemma: a bitmap whose bit offset was advanced by `o`, read at `i`, is the original bitmap read at
@@ -146,4 +146,4 @@ theorem rangeAt_natCast (f : Nat → R LVal) (len s e : Nat) (h1 : s ≤ e) (h2 
   have : (0 : Int) ≤ s ∧ (s : Int) ≤ e ∧ (e : Int) ≤ len := by omega
   simp only [this, and_self, if_true, Int.toNat_natCast]
 
-end SaModel.Props.C12
+end SaModel.Lemmas.C12
